@@ -8,8 +8,8 @@ cd $wt || exit 1
 git -C $wt diff --stat -- src | tail -1
 echo "-- patch applies on a clean checkout:"; (git -C /repo apply --check $d/patch.diff && echo yes) 2>&1
 echo "-- test suite with the change:"; make -j16 check 2>&1 | grep -E "^# (TOTAL|PASS|FAIL|ERROR)"
-echo "-- demo against the changed library:"; gcc -w -I$wt/src/libsodium/include $d/demo.c $wt/src/libsodium/.libs/libsodium.a -lpthread -o /tmp/demo-changed && (/tmp/demo-changed | tail -2; echo "exit=${PIPESTATUS[0]}")
-echo "-- demo against the unchanged library (source build of /repo HEAD):"; gcc -w -I/repo/src/libsodium/include $d/demo.c /var/tmp/vb-native/libsodium.a -lpthread -o /tmp/demo-clean && (/tmp/demo-clean | tail -2; echo "exit=${PIPESTATUS[0]}")
+echo "-- demo against the changed library:"; gcc -w -I$wt/src/libsodium/include $d/demo.c $wt/src/libsodium/.libs/libsodium.a -lpthread -o /tmp/demo-changed-$$ && (/tmp/demo-changed-$$ | tail -2; echo "exit=${PIPESTATUS[0]}")
+echo "-- demo against the unchanged library (source build of /repo HEAD):"; gcc -w -I/repo/src/libsodium/include $d/demo.c /var/tmp/vb-native/libsodium.a -lpthread -o /tmp/demo-clean-$$ && (/tmp/demo-clean-$$ | tail -2; echo "exit=${PIPESTATUS[0]}")
 } > $out 2>&1
 git -C /repo worktree remove --force $wt
 cat $out
